@@ -8,17 +8,23 @@
 #include "opentelemetry/logs/severity.h"
 #include "opentelemetry/sdk/common/global_log_handler.h"
 #include "opentelemetry/sdk/logs/batch_log_record_processor.h"
+#include "opentelemetry/sdk/logs/batch_log_record_processor_factory.h"
+#include "opentelemetry/sdk/logs/batch_log_record_processor_runtime_options.h"
 #include "opentelemetry/sdk/logs/batch_log_record_processor_options.h"
 #include "opentelemetry/sdk/logs/exporter.h"
 #include "opentelemetry/sdk/logs/logger_provider.h"
 #include "opentelemetry/sdk/logs/read_write_log_record.h"
 #include "opentelemetry/sdk/logs/simple_log_record_processor.h"
 #include "opentelemetry/sdk/metrics/export/periodic_exporting_metric_reader.h"
+#include "opentelemetry/sdk/metrics/export/periodic_exporting_metric_reader_factory.h"
+#include "opentelemetry/sdk/metrics/export/periodic_exporting_metric_reader_runtime_options.h"
 #include "opentelemetry/sdk/metrics/export/periodic_exporting_metric_reader_options.h"
 #include "opentelemetry/sdk/metrics/meter_provider.h"
 #include "opentelemetry/sdk/metrics/push_metric_exporter.h"
 #include "opentelemetry/sdk/resource/resource.h"
 #include "opentelemetry/sdk/trace/batch_span_processor.h"
+#include "opentelemetry/sdk/trace/batch_span_processor_factory.h"
+#include "opentelemetry/sdk/trace/batch_span_processor_runtime_options.h"
 #include "opentelemetry/sdk/trace/batch_span_processor_options.h"
 #include "opentelemetry/sdk/trace/exporter.h"
 #include "opentelemetry/sdk/trace/simple_processor.h"
@@ -391,6 +397,51 @@ sdklogs::BatchLogRecordProcessorOptions log_opts(const Case &c)
   return o;
 }
 
+// Every public construction route must honour the same options (knob ctor):
+// 0 (exporter, options)  1 (exporter, options, runtime options)  2 factory(options)
+// 3 factory(options, runtime options)  4 logs only: positional (queue, delay, batch)
+std::unique_ptr<sdktrace::SpanProcessor> make_batch_span(const Case &c,
+                                                         std::unique_ptr<sdktrace::SpanExporter> e)
+{
+  sdktrace::BatchSpanProcessorRuntimeOptions rt;
+  switch ((int)c.knob("ctor", 0))
+  {
+    case 1:
+      return std::unique_ptr<sdktrace::SpanProcessor>(
+          new sdktrace::BatchSpanProcessor(std::move(e), span_opts(c), rt));
+    case 2:
+      return sdktrace::BatchSpanProcessorFactory::Create(std::move(e), span_opts(c));
+    case 3:
+      return sdktrace::BatchSpanProcessorFactory::Create(std::move(e), span_opts(c), rt);
+    default:
+      return std::unique_ptr<sdktrace::SpanProcessor>(
+          new sdktrace::BatchSpanProcessor(std::move(e), span_opts(c)));
+  }
+}
+std::unique_ptr<sdklogs::LogRecordProcessor> make_batch_log(
+    const Case &c,
+    std::unique_ptr<sdklogs::LogRecordExporter> e)
+{
+  sdklogs::BatchLogRecordProcessorRuntimeOptions rt;
+  auto o = log_opts(c);
+  switch ((int)c.knob("ctor", 0))
+  {
+    case 1:
+      return std::unique_ptr<sdklogs::LogRecordProcessor>(
+          new sdklogs::BatchLogRecordProcessor(std::move(e), o, rt));
+    case 2:
+      return sdklogs::BatchLogRecordProcessorFactory::Create(std::move(e), o);
+    case 3:
+      return sdklogs::BatchLogRecordProcessorFactory::Create(std::move(e), o, rt);
+    case 4:
+      return std::unique_ptr<sdklogs::LogRecordProcessor>(new sdklogs::BatchLogRecordProcessor(
+          std::move(e), o.max_queue_size, o.schedule_delay_millis, o.max_export_batch_size));
+    default:
+      return std::unique_ptr<sdklogs::LogRecordProcessor>(
+          new sdklogs::BatchLogRecordProcessor(std::move(e), o));
+  }
+}
+
 struct SpanDirect : Pipeline
 {
   std::unique_ptr<sdktrace::SpanProcessor> proc;
@@ -401,7 +452,7 @@ struct SpanDirect : Pipeline
     if (simple)
       proc.reset(new sdktrace::SimpleSpanProcessor(std::move(e)));
     else
-      proc.reset(new sdktrace::BatchSpanProcessor(std::move(e), span_opts(*w.c)));
+      proc = make_batch_span(*w.c, std::move(e));
   }
   void produce(int p, int k) override
   {
@@ -423,7 +474,7 @@ struct LogDirect : Pipeline
     if (simple)
       proc.reset(new sdklogs::SimpleLogRecordProcessor(std::move(e)));
     else
-      proc.reset(new sdklogs::BatchLogRecordProcessor(std::move(e), log_opts(*w.c)));
+      proc = make_batch_log(*w.c, std::move(e));
   }
   void produce(int p, int k) override
   {
@@ -453,7 +504,7 @@ struct SpanProvider : Pipeline
       if (simple)
         procs.emplace_back(new sdktrace::SimpleSpanProcessor(std::move(e)));
       else
-        procs.emplace_back(new sdktrace::BatchSpanProcessor(std::move(e), span_opts(*w.c)));
+        procs.emplace_back(make_batch_span(*w.c, std::move(e)));
     }
     std::unique_ptr<sdktrace::SpanProcessor> later;
     if (w.c->knob("add_later", 0) && procs.size() > 1)
@@ -492,7 +543,7 @@ struct LogProvider : Pipeline
       if (simple)
         procs.emplace_back(new sdklogs::SimpleLogRecordProcessor(std::move(e)));
       else
-        procs.emplace_back(new sdklogs::BatchLogRecordProcessor(std::move(e), log_opts(*w.c)));
+        procs.emplace_back(make_batch_log(*w.c, std::move(e)));
     }
     std::unique_ptr<sdklogs::LogRecordProcessor> later;
     if (w.c->knob("add_later", 0) && procs.size() > 1)
@@ -535,8 +586,22 @@ struct Periodic : Pipeline
       sdkmet::PeriodicExportingMetricReaderOptions o;
       o.export_interval_millis = std::chrono::milliseconds(w.c->knob("interval_ms", 1000));
       o.export_timeout_millis  = std::chrono::milliseconds(w.c->knob("timeout_ms", 500));
-      std::shared_ptr<sdkmet::MetricReader> r(
-          new sdkmet::PeriodicExportingMetricReader(std::move(e), o));
+      std::shared_ptr<sdkmet::MetricReader> r;
+      sdkmet::PeriodicExportingMetricReaderRuntimeOptions rt;
+      switch ((int)w.c->knob("ctor", 0))
+      {
+        case 1:
+          r.reset(new sdkmet::PeriodicExportingMetricReader(std::move(e), o, rt));
+          break;
+        case 2:
+          r = sdkmet::PeriodicExportingMetricReaderFactory::Create(std::move(e), o);
+          break;
+        case 3:
+          r = sdkmet::PeriodicExportingMetricReaderFactory::Create(std::move(e), o, rt);
+          break;
+        default:
+          r.reset(new sdkmet::PeriodicExportingMetricReader(std::move(e), o));
+      }
       readers.push_back(r);
       prov->AddMetricReader(r);
     }
@@ -1227,6 +1292,7 @@ void generate(const std::string &prop, Rng &wl, Rng &fl, Case &c)
   c.set("max_queue", max_queue);
   c.set("max_batch", max_batch);
   c.set("delay_ms", delay_ms);
+  c.set("ctor", (int64_t)wl.below(5));  // construction route, see make_batch_span / make_batch_log
   int lat_sel = (int)wl.below(3);
   int64_t lat_unit = delay_ms;  // ms
   c.set("to_small_us", std::max<int64_t>(1, delay_ms * 300));
@@ -1370,11 +1436,10 @@ void generate(const std::string &prop, Rng &wl, Rng &fl, Case &c)
           // the provider latches, so shut it down through the provider
           // every timeout class, also zero and one shorter than an Export in flight
           int64_t code = wl.chance(0.4) ? 3 : (int64_t)wl.below(3);
-          if (stratum != "stall")
-          {
-            t.ops.push_back({OP_SHUTDOWN, code, 1, 0, 0});
-            any_shutdown = true;
-          }
+          // (also in the stall stratum: a Shutdown whose drain sits in the stalled exporter
+          // may block its caller, never a producer)
+          t.ops.push_back({OP_SHUTDOWN, code, 1, 0, 0});
+          any_shutdown = true;
         }
       }
       if (any_shutdown && prop == "C02" && wl.chance(0.5))
